@@ -5,9 +5,52 @@ import (
 	"fmt"
 	"os"
 	"runtime/debug"
+	"strings"
+	"time"
 
 	"verif/checks"
 )
+
+// crashToVerdict: the enumerating checks of C12, C14 and C20 call the library's pure functions
+// directly; their statements say these functions never panic (are total). A panic that escapes one
+// of the unguarded call sites and whose innermost non-runtime frame lies in the library is
+// therefore a violation of the property, not a harness failure - it is reported as one (exit 1, with
+// a replay file holding the stack) instead of killing the checker with an unreadable exit status.
+// A panic raised by harness code, or in any other check, stays a harness failure (exit 2).
+func crashToVerdict(property string, tier checks.Tier, start time.Time) {
+	r := recover()
+	if r == nil {
+		return
+	}
+	stack := string(debug.Stack())
+	if wp, ok := r.(*checks.WorkerPanic); ok {
+		// the panic happened in a worker goroutine of an enumeration: classify by its stack
+		r, stack = wp.Value, wp.Stack
+	}
+	inLibrary := false
+	for _, line := range strings.Split(stack, "\n") {
+		l := strings.TrimSpace(line)
+		if strings.HasPrefix(l, "runtime.") || strings.HasPrefix(l, "runtime/") || strings.HasPrefix(l, "panic(") || strings.HasPrefix(l, "main.crashToVerdict") || strings.HasPrefix(l, "verif/checks.Parallel") || strings.HasPrefix(l, "goroutine ") || strings.HasPrefix(l, "/") || l == "" {
+			continue
+		}
+		inLibrary = strings.HasPrefix(l, "github.com/ElrondNetwork/elrond-vm-common")
+		break
+	}
+	total := map[string]bool{"C12": true, "C14": true, "C20": true}
+	if !inLibrary || !total[property] {
+		fmt.Printf("SELF-CHECK property=%s the checker crashed: %v\n%s\n", property, r, stack)
+		os.Exit(2)
+	}
+	short := stack
+	if len(short) > 1800 {
+		short = short[:1800]
+	}
+	o := &checks.Outcome{Property: property, Tier: tier, Level: "exploration", Start: start,
+		Coverage:    map[string]interface{}{"exhaustive": false, "evaluations": 0, "distinct_nontrivial": 0, "rule": "the enumeration was cut short by a panic inside the library (reported as the violation below)", "aborted_by_panic": true},
+		Assumptions: []string{"a panic escaping the library's pure functions ends the enumeration; it is itself the violation"},
+		Violations:  []checks.Viol{{Property: property, Clause: "panic", Sig: "library-panic", Detail: fmt.Sprintf("a library function panicked during the enumeration: %v\n%s", r, short), Kind: "case", Replay: map[string]interface{}{"panic": fmt.Sprint(r), "stack": stack}}}}
+	os.Exit(checks.Finish(o))
+}
 
 func main() {
 	debug.SetGCPercent(400)
@@ -36,5 +79,10 @@ func main() {
 		fmt.Fprintf(os.Stderr, "unknown property %s\n", os.Args[1])
 		os.Exit(2)
 	}
-	os.Exit(f(tier))
+	start := time.Now()
+	rc := func() int {
+		defer crashToVerdict(os.Args[1], tier, start)
+		return f(tier)
+	}()
+	os.Exit(rc)
 }
